@@ -388,6 +388,9 @@ impl<const M: usize> Sim<M> {
         let b: &Bump<M> = &**self.bump;
         let f = || -> Result<T, Tracked> {
             calls += 1;
+            if inner != 0 {
+                halloc::new_call_in_window();
+            }
             match inner {
                 1 => {
                     if let Ok(p) = b.try_alloc_layout(Layout::from_size_align(24, 8).unwrap()) {
@@ -565,6 +568,9 @@ impl<const M: usize> Sim<M> {
         let r = catch_unwind(AssertUnwindSafe(|| -> Result<*mut T, Tracked> {
             let mut f = |i: usize| -> Result<T, Tracked> {
                 order.push(i);
+                if inner != 0 {
+                    halloc::new_call_in_window();
+                }
                 if inner == 1 && kept.len() < 4 {
                     if let Ok(p) = b.try_alloc_layout(Layout::from_size_align(40, 8).unwrap()) {
                         let kid = kid0 + kept.len() as u32;
